@@ -225,6 +225,17 @@ func (sc *serverConn) Serve() error {
 		// itself is never closed: anything still holding a frame would panic
 		// trying to hand it over.
 		close(sc.writeStop)
+
+		// The write loop closes the socket once it has drained, and that is
+		// what gets the read loop out of its Read. A peer that has stopped
+		// reading keeps the write loop in Write instead, and if it has also
+		// stopped sending nothing would ever end the connection it has just
+		// been told is over.
+		select {
+		case <-writeDone:
+		case <-time.After(writeDrainTimeout):
+			_ = sc.c.Close()
+		}
 	}()
 
 	defer func() {
